@@ -50,7 +50,7 @@ ASSUMPTIONS = [
     "which simulation does not decide",
     "the 'fresh generator' reference uses the same generator code under test (it is the definition of the input)",
 ]
-PROBES = ["explicit_reseed", "explicit_reseed_zero", "cross_process_reproducibility", "history_with_abandoned_pass", "history_with_probe", "from_random_parallel", "window_with_pole", "size_multiple_of_chunk", "tail_chunk"]
+PROBES = ["explicit_reseed", "explicit_reseed_zero", "cross_process_reproducibility", "history_with_abandoned_pass", "history_with_probe", "from_random_parallel", "window_with_pole", "size_multiple_of_chunk", "tail_chunk", "from_random_with_stalled_peer_fault"]
 REAL_VS_STUB = dict(
     real="yaw.randoms, RandomReader, Catalog.from_random and the whole creation pipeline, numpy Generator",
     stub="multiprocessing (sim.fakemp) for workers > 1; treecorr RNG/threads for patch_num; builtins.id (sim.identity)",
@@ -337,6 +337,7 @@ class Model:
         saved_tc = ycat.treecorr
         seeded_tc = ycat.treecorr = wl.SeededTreecorr(case["gen_seed"] % 9973)
         writer_errors: list[str] = []
+        stalled = False
         try:
             if workers <= 1:
                 with sequential_mode():
@@ -344,9 +345,15 @@ class Model:
             else:
                 self.rec.probe("from_random_parallel")
                 sim = Sim(sched_seed, fs_root=self.root, cores=workers, step_cap=60_000)
+                if sched_seed % 3 == 0:
+                    # a slow or stalled peer: every timed wait that finds nothing outlasts its timeout
+                    # (the pinned library waits without timeouts: then this changes nothing)
+                    sim.faults["timeouts_fire"] = 0
+                    self.rec.probe("from_random_with_stalled_peer_fault")
                 try:
                     with fakemp.patched(sim):
                         v = sim.run(create)
+                    stalled = bool(sim.faults.get("_fired", {}).get("timeouts_fire"))
                     if v != Verdict.COMPLETE:
                         raise HistoryViolation(dict(property=PROP, failing_rule="from_random", outcome=v), f"{v}: {sim.blocked_report}")
                     writer_errors.extend(str(e) for e in sim.objects.get("process_errors", []))
@@ -359,6 +366,9 @@ class Model:
             raise
         except Exception as err:  # noqa: BLE001 - any library exception on fault-free input
             text = str(err) + " | " + " | ".join(writer_errors)
+            if stalled:
+                self.outcomes[-1] = "refused:stalled-peer"
+                return  # giving up after a timeout is reported: legal; a short catalog would not be
             if seeded_tc.degenerate:
                 self.outcomes[-1] = "refused:degenerate-centres"
                 return  # k-means produced a non-finite centre: degenerate input, any refusal is legal
